@@ -111,6 +111,16 @@ def _distinct_syms(items):
 
 
 C.STRUCT_ATTR[("MulV", "args")] = lambda ip, o: tuple(o.f["factors"])
+C.STRUCT_ATTR[("AddV", "args")] = lambda ip, o: tuple(o.f["terms"])
+C.STRUCT_ISINSTANCE["AddV"] = lambda ip, v, cls: str(getattr(cls, "dotted", getattr(cls, "key", ""))).endswith("Add")
+
+
+def _addv_func(ip, o):
+    from pyvc.values import PyFunc
+    return PyFunc(lambda ip_, args, kwargs: Struct("AddV", terms=tuple(args)), "Add")
+
+
+C.STRUCT_ATTR[("AddV", "func")] = _addv_func
 C.STRUCT_ISINSTANCE["MulV"] = lambda ip, v, cls: str(getattr(cls, "dotted", getattr(cls, "key", ""))).endswith("Mul")
 C.STRUCT_ISINSTANCE["TensorV"] = lambda ip, v, cls: False
 C.STRUCT_METHODS[("KroneckerDelta", "atoms")] = lambda ip, o, a, k: PSet(_distinct_syms(obj_indices(o)))
@@ -199,10 +209,13 @@ class EvaluateDeltas(Contract):
         [("d", "xy"), ("d", "yz"), ("d", "zw"), ("X", "xw")],
         [("X", "xy")],
     ]
-    split_first_choice = len(SHAPES)
+    split_first_choice = len(SHAPES) + 2
 
     def setup(self, vc):
-        shape = self.SHAPES[vc.choose(len(self.SHAPES), "shape")]
+        which = vc.choose(len(self.SHAPES) + 2, "shape")
+        if which >= len(self.SHAPES):
+            return self.setup_sum(vc, which - len(self.SHAPES))
+        shape = self.SHAPES[which]
         letters = sorted({c for _k, nm in shape for c in nm})
         idx = {c: new_index(vc, c) for c in letters}
         if len(letters) > 1:
@@ -228,12 +241,28 @@ class EvaluateDeltas(Contract):
         vc.ghost["_ed"] = {"targets": targets, "objs": objs}
         return {"expr": Struct("MulV", factors=objs), "target_idx": given}
 
+    def setup_sum(self, vc, mode):
+        """a sum of two products: every term is evaluated with the target indices of the call"""
+        x, y, z = (new_index(vc, c) for c in "xyz")
+        vc.assume(z3.Distinct(x.t, y.t, z.t))
+        vc.assume(znot(range_disjoint(x, y)))
+        t1 = Struct("MulV", factors=[delta_struct(x, y), tensor_v("X", [x]), tensor_v("Y", [y])])
+        t2 = Struct("MulV", factors=[tensor_v("Z", [x, z])])
+        given = None if mode == 0 else PList([x, y])
+        vc.ghost["_ed"] = {"targets": [], "objs": [], "sum": True, "given": given, "terms": [t1, t2]}
+        return {"expr": Struct("AddV", terms=(t1, t2)), "target_idx": given}
+
     def pre(self, vc, a):
         if not a.get("_callsite"):
             return []
-        # recursive call: the same target indices as this invocation
         st = vc.ghost["_ed"]
         got = a.get("target_idx")
+        if st.get("sum"):
+            # the terms of a sum are evaluated with the target indices of the call itself
+            ok = any(a["expr"] is t for t in st["terms"]) and \
+                ((got is None and st["given"] is None) or got is st["given"])
+            return [("terms-of-a-sum-are-evaluated-with-the-target-indices-of-the-call", bool(ok))]
+        # recursive call: the same target indices as this invocation
         if not isinstance(got, (PList, tuple)):
             return [("recursion-works-with-the-same-target-indices", False)]
         items = got.items if isinstance(got, PList) else list(got)
@@ -246,5 +275,10 @@ class EvaluateDeltas(Contract):
 
     def post(self, vc, a, result):
         st = vc.ghost["_ed"]
+        if st.get("sum"):
+            ok = isinstance(result, Struct) and result.cls == "AddV" and len(result.f["terms"]) == 2 and \
+                all(isinstance(t, Struct) and t.cls == "Evaluated" and t.f["of"] is s_
+                    for t, s_ in zip(result.f["terms"], st["terms"]))
+            return [("sum-of-the-evaluated-terms-in-order", bool(ok))]
         ok = isinstance(result, Struct) and result.cls in ("MulV", "Evaluated") or result == 0
         return [("returns-the-(partly)-evaluated-product", bool(ok))]
